@@ -139,6 +139,13 @@ fn oracle(ctx: &Context, w: &mut impl Write) {
     for (n, _) in &r.docs { if !exists(n) { orphans.push(format!("doc:{}", n)); } }
     for (n, c) in &r.categories { if !exists(n) { orphans.push(format!("category:{}", n)); } else if !r.category_names.contains_key(c) { orphans.push(format!("undeclared-category:{}", c)); } }
     line("orphans", orphans);
+    // after loading, a name denotes what the database holds for it: nothing of a substance block is left behind
+    let mut stale = vec![];
+    for (n, v) in r.units.iter() {
+        if n == "ans" || n == "ANS" || n == "_" { continue; }
+        if !r.base_units.contains(&n[..]) { if ctx.lookup(n).as_ref() != Some(v) { stale.push(n.clone()); } }
+    }
+    line("staleNames", stale);
     writeln!(w, "oracle fixedPointChecked {}", checked).unwrap();
 }
 
@@ -281,6 +288,7 @@ fn random_units_text(rng: &mut Rng) -> String {
                 for _ in 0..rng.below(4) {
                     if rng.chance(1, 4) { t.push_str("    ?? property doc\n"); }
                     if rng.chance(1, 2) { t.push_str(&format!("    prop{} out{} {} / in{} {}\n", rng.below(4), rng.below(3), expr(rng), rng.below(3), expr(rng))); }
+                    else if rng.chance(1, 3) { t.push_str(&format!("    u{} const u{} {}\n", rng.below(n), rng.below(n), expr(rng))); }
                     else { t.push_str(&format!("    const{} name{} {}\n", rng.below(4), rng.below(3), expr(rng))); }
                 }
                 if !rng.chance(1, 10) { t.push_str("}\n"); }
@@ -463,6 +471,8 @@ pub fn run(o: &Opts) -> i32 {
             // consults the temporaries first)
             scen.push(("subst-shadow".into(), "a property named like a unit shadows it inside its substance".into(), vec![bu("m"), bu("kg"), unit("len", "6 m"), unit("mass", "7 m"),
                 subst("thing", vec![("size", "sizein", "1", "len", "10 m"), ("double", "din", "1", "dout", "2 len"), ("weight", "win", "1", "mass", "3 kg"), ("dens", "volume", "1 m^3", "densout", "mass")])]));
+            scen.push(("subst-partial-fail".into(), "a substance block that fails after a property named like a unit was evaluated".into(), vec![bu("kg"), unit("weight", "5 kg"), unit("zzz", "2 weight"),
+                subst("zz_bad", vec![("first", "fin", "1", "weight", "2 kg"), ("broken", "bin", "1", "bout", "3 nosuchunit")])]));
             scen.push(("degree-missing".into(), "temperature suffix without its constants".into(), vec![unit("t", "5")]));
             // random grammar-directed lists
             let nrand = if o.thorough { 400 } else { 40 };
